@@ -207,6 +207,22 @@ def run_wrappers(ex):
     dc = vect.dvector_copy(d); need(vect.dvector_tolist(dc) == vect.dvector_tolist(d), "dvector_copy")
     vect.dvector_set(dc, 1.5); need(set(vect.dvector_tolist(dc)) == {1.5} and vect.dvector_tolist(d) == v[1:] + [3.25], "dvector_set / deep copy")
     vect.dvector_resize(dc, 3); need(vect.dvector_tolist(dc) == [0.0] * 3, "dvector_resize")
+    # integer containers over the FULL width of their element type (size_t / int): a return or parameter declared with another
+    # width or signedness only shows on values beyond 2^31
+    if "ubig" in ex:
+        ub = vect.new_uivector(ex["ubig"])
+        for k_, val_ in enumerate(ex["ubig"]): need(vect.get_uivector_value(ub, k_) == val_, "get_uivector_value(%d) = %r but %r was stored" % (k_, vect.get_uivector_value(ub, k_), val_))
+        need(vect.uivector_tolist(ub) == ex["ubig"], "uivector_tolist over the full size_t range")
+        vect.set_uivector_value(ub, 0, ex["ubig"][-1]); need(vect.get_uivector_value(ub, 0) == ex["ubig"][-1], "set_uivector_value / get_uivector_value of %r" % ex["ubig"][-1])
+        vect.uivector_append(ub, ex["ubig"][0]); need(vect.uivector_tolist(ub)[-1] == ex["ubig"][0], "uivector_append of %r" % ex["ubig"][0])
+        dims = sarr([0]); out_ = sarr([0] * 64); VD.vd_dump_uivector(ub, dims, out_, ctypes.c_size_t(64)); need(list(out_[: dims[0]]) == vect.uivector_tolist(ub), "uivector (full range) as seen from C")
+        vect.del_uivector(ub)
+        ib = vect.new_ivector(ex["ibig"])
+        for k_, val_ in enumerate(ex["ibig"]): need(vect.get_ivector_value(ib, k_) == val_, "get_ivector_value(%d) = %r but %r was stored" % (k_, vect.get_ivector_value(ib, k_), val_))
+        need(vect.ivector_tolist(ib) == ex["ibig"], "ivector_tolist over the full int range")
+        vect.set_ivector_value(ib, 0, ex["ibig"][-1]); need(vect.ivector_tolist(ib)[0] == ex["ibig"][-1], "set_ivector_value of %r" % ex["ibig"][-1])
+        vect.ivector_append(ib, ex["ibig"][0]); need(vect.ivector_tolist(ib)[-1] == ex["ibig"][0], "ivector_append of %r" % ex["ibig"][0])
+        vect.del_ivector(ib)
     u = vect.new_uivector(ex["u"]); vect.uivector_append(u, 77); need(vect.uivector_tolist(u) == ex["u"] + [77], "uivector_append"); vect.set_uivector_value(u, 0, 5); need(vect.get_uivector_value(u, 0) == 5, "set/get_uivector_value")
     vect.uivector_remove_at(u, 0); need(vect.uivector_tolist(u) == ex["u"][1:] + [77], "uivector_remove_at"); vect.uivector_resize(u, 2); need(vect.uivector_tolist(u) == [0, 0], "uivector_resize")
     # tensors
@@ -261,7 +277,9 @@ if not A.replay:
     def g_wrappers(draw):
         r = draw(st.integers(1, 4)); c = draw(st.integers(1, 4)); c2 = draw(st.integers(1, 3))
         A = draw(st.lists(st.lists(val, min_size=c, max_size=c), min_size=r, max_size=r)); B = draw(st.lists(st.lists(val, min_size=c2, max_size=c2), min_size=c, max_size=c))
-        return {"a": A, "b": B, "v": draw(st.lists(val, min_size=4, max_size=6)), "u": draw(st.lists(st.integers(0, 1000), min_size=1, max_size=5)), "t": draw(st.lists(mat(1, 3, 1, 3), min_size=1, max_size=2))}
+        return {"a": A, "b": B, "v": draw(st.lists(val, min_size=4, max_size=6)), "u": draw(st.lists(st.integers(0, 1000), min_size=1, max_size=5)), "t": draw(st.lists(mat(1, 3, 1, 3), min_size=1, max_size=2)),
+                "ubig": draw(st.lists(st.one_of(st.integers(0, 1000), st.sampled_from([2**31 - 1, 2**31, 2**32 - 1, 2**32, 2**32 + 5, 2**63 - 1, 2**63, 2**64 - 1]), st.integers(0, 2**64 - 1)), min_size=1, max_size=5)),
+                "ibig": draw(st.lists(st.one_of(st.integers(-1000, 1000), st.sampled_from([-2**31, -2**31 + 1, -1, 2**31 - 1, 2**15, -2**15 - 1]), st.integers(-2**31, 2**31 - 1)), min_size=1, max_size=5))}
     GENS = {"wrappers": g_wrappers, "containers": g_containers, "pca": g_pca, "pls": g_pls, "cpca": g_cpca, "select": g_select, "spline": g_spline}
 
 stats = {"subs": {}, "layout_fields": 0, "failures": []}
